@@ -40,17 +40,17 @@ func TestVerifC04ZrpcClient(t *testing.T) {
 		if rapid.Bool().Draw(t, "otherOption") {
 			opts = append([]grpc.CallOption{grpc.WaitForReady(true)}, opts...)
 		}
-		callerMode := rapid.SampledFrom([]string{"none", "later", "earlier"}).Draw(t, "caller")
+		// the caller's own deadline: none, or at a generated distance that falls before, between and after
+		// the per-call and the default timeout
+		callerMode := rapid.SampledFrom([]string{"none", "deadline", "deadline"}).Draw(t, "caller")
 		ctx := context.Background()
 		var callerDeadline time.Time
 		var cancel context.CancelFunc = func() {}
-		switch callerMode {
-		case "later":
-			callerDeadline = time.Now().Add(24 * time.Hour)
+		if callerMode == "deadline" {
+			us := rapid.SampledFrom([]int{500, 10_000, 100_000, 400_000, 750_000, 2_000_000, 10_000_000, 120_000_000, 86_400_000_000}).Draw(t, "callerDeadlineUs")
+			callerDeadline = time.Now().Add(time.Duration(us) * time.Microsecond)
 			ctx, cancel = context.WithDeadline(ctx, callerDeadline)
-		case "earlier":
-			callerDeadline = time.Now().Add(500 * time.Microsecond)
-			ctx, cancel = context.WithDeadline(ctx, callerDeadline)
+			callerMode = fmt.Sprintf("deadline+%v", time.Duration(us)*time.Microsecond)
 		}
 		defer cancel()
 		ierr := errors.New("invoker error")
